@@ -278,6 +278,11 @@ ANCHORS = [
     {"op": "diamond", "geom": "square", "dtype": "float32", "fuse": True, "compressor": "none"},
     {"op": "sum_keepdims_fused", "geom": "square", "dtype": "float64", "fuse": True, "compressor": "none"},
     {"op": "rechunk_transposed", "geom": "square", "dtype": "float64", "fuse": False, "compressor": "none"},
+    # fixed must-measure cases: a task whose in-memory output block spans many chunks of the array it writes to.  They stay well
+    # within the projection on the unchanged tree (0.49 / 0.47 / 0.71), so any excess here is unclassifiable ("must_pass")
+    {"op": "rechunk_thin", "geom": "square", "dtype": "float64", "fuse": False, "compressor": "none", "must_pass": True},
+    {"op": "identity", "geom": "square", "dtype": "float64", "fuse": False, "compressor": "none", "store_chunks": [101, 101], "must_pass": True},
+    {"op": "identity", "geom": "square", "dtype": "float64", "fuse": False, "compressor": "default", "store_chunks": [101, 101], "must_pass": True},
     # one fixed witness per listed finding (KNOWN_FINDINGS.txt), run first in both tiers
     {"op": "unstack_multi_block", "geom": "square", "dtype": "float64", "fuse": False, "compressor": "none"},   # unstack-loads-k-blocks
     {"op": "isnan", "geom": "square", "dtype": "float64", "fuse": False, "compressor": "default"},              # compressed-chunk-extra-buffer
@@ -428,7 +433,7 @@ def evaluate(ctx, results, twins=None):
                       nontrivial=nontrivial, kind="oracle:%s:%s" % (r["case"]["compressor"], "fused" if d.get("fused") else o["op_name"]))
             ctx.dist["ratio:%s" % ("<0.5" if o["peak"] < 0.5 * o["projected"] else "<0.9" if o["peak"] < 0.9 * o["projected"] else "<=1" if o["peak"] <= o["projected"] else ">1")] += 1
             if o["peak"] > o["projected"]:
-                key = classify(r, o, twins.get(i))
+                key = None if r["case"].get("must_pass") else classify(r, o, twins.get(i))
                 if len(ctx.extra.setdefault("oracle_failures_detail", [])) < 60:
                     ctx.extra["oracle_failures_detail"].append(
                         {"key": key, "case": r["case"], "node": o["name"], "op_name": o["op_name"], "projected": o["projected"], "peak": o["peak"],
@@ -456,7 +461,7 @@ def measure(ctx, cases):
 
 
 def oracle(ctx):
-    n = ctx.budget(26, 150)
+    n = ctx.budget(29, 150)
     cases = sample_cases(ctx, n)
     cases.append(witness_unstack())
     t0 = ctx.elapsed()
